@@ -1,7 +1,7 @@
 (* C16 — The graphqlschema strategy reproduces the schema.
    Property theorems only; proofs live in Proofs/PyReprP.v and Proofs/SchemaGenP.v. *)
 From Coq Require Import List String Ascii Bool ZArith.
-From AC Require Import Base.Strs Model.PyRepr Proofs.PyReprP Model.SchemaGen Proofs.SchemaGenP.
+From AC Require Import Base.Strs Model.PyRepr Proofs.PyReprP Model.SchemaGen Proofs.SchemaGenP Proofs.SchemaGenClosedP.
 Import ListNotations.
 Local Open Scope string_scope.
 
@@ -9,10 +9,11 @@ Local Open Scope string_scope.
 (* every value CPython can hold (py_val) survives repr -> literal_eval *)
 Definition C16_repr_roundtrip_full : Prop :=
   forall v, py_val v = true -> py_literal_eval (py_repr v) = Some v.
-(* every valid schema, every variable name: the module evaluates back to the schema *)
+(* every valid schema (wf_gen dv_val: what graphql-core can build from SDL / introspection) and every
+   configuration the settings accept: whatever the strategy writes evaluates back to the schema *)
 Definition C16_schema_roundtrip_full : Prop :=
-  forall S tm sn, valid_fschema S = true ->
-  eval_module (gen_module S tm sn) = Some (strip_std S).
+  forall S tm sn m, wf_gen dv_val S = true -> strategy_py S tm sn = Some m ->
+  eval_module m = Some (strip_std S).
 
 (* ---- proved ---- *)
 (* character level: quote choice, backslash / quote / n / r / t / xNN escapes, nested lists and dicts, ints,
@@ -39,16 +40,39 @@ Theorem C16_default_value_roundtrip : forall v, dv_val v = true -> ev_val (gen_d
 Proof. exact ev_val_gen_dv. Qed.
 Print Assumptions C16_default_value_roundtrip.
 
-(* the module round trip.  First hypothesis = validity of the schema record (names resolve, maps have
-   distinct keys, constants are values: dv_val = py_val minus nan, which no literal denotes; non-finite
-   floats are INSIDE since the fix).  Second = complement of the open finding
-   C16-typemap-name-shadows-import. *)
-Theorem C16_schema_roundtrip_partial : forall S tm sn,
-  wf_gen dv_val S = true ->
-  mem_chars tm BUILTIN_NAMES = false ->
+(* THE round trip, full statement: no guard left.  The refusal of names that shadow an import (fix 18e873d)
+   is part of the model: strategy_py answers None exactly when settings_ok (mirror of
+   GraphQLSchemaSettings.__post_init__: identifier, not keyword, not an import of the module, distinct) fails. *)
+Theorem C16_schema_roundtrip : C16_schema_roundtrip_full.
+Proof. intros S tm sn m W H. eapply strategy_roundtrip; eassumption. Qed.
+Print Assumptions C16_schema_roundtrip.
+
+Theorem C16_schema_roundtrip_accepted : forall S tm sn,
+  settings_ok tm sn = true -> wf_gen dv_val S = true ->
   eval_module (gen_module S tm sn) = Some (strip_std S).
-Proof. exact schema_roundtrip_guarded. Qed.
-Print Assumptions C16_schema_roundtrip_partial.
+Proof. exact schema_roundtrip_settings. Qed.
+Print Assumptions C16_schema_roundtrip_accepted.
+
+(* nothing of the schema is lost in the module *)
+Theorem C16_gen_injective : forall S1 S2 tm sn,
+  settings_ok tm sn = true -> wf_gen dv_val S1 = true -> wf_gen dv_val S2 = true ->
+  gen_module S1 tm sn = gen_module S2 tm sn -> strip_std S1 = strip_std S2.
+Proof. exact gen_injective. Qed.
+Print Assumptions C16_gen_injective.
+
+(* importable: every global name the module reads (annotations included) is the type-map variable or is
+   bound by an import that survives the unused-import pruning; for EVERY schema record and every names *)
+Theorem C16_module_closed : forall S tm sn n,
+  In n (reads (gen_module S tm sn)) -> n = tm \/ In n (imported (gen_module S tm sn)).
+Proof. exact module_closed. Qed.
+Print Assumptions C16_module_closed.
+
+(* and the pruning is exact: every import kept is read, or is one of the two variables (pyflakes reports a
+   rebound import as a redefinition, autoflake keeps it) *)
+Theorem C16_imports_all_used : forall S tm sn n,
+  In n (imported (gen_module S tm sn)) -> In n (tm :: sn :: reads (gen_module S tm sn)).
+Proof. exact imports_all_used. Qed.
+Print Assumptions C16_imports_all_used.
 
 Theorem C16_guard_is_valid : forall S, wf_gen dv_val S = true -> valid_fschema S = true.
 Proof. exact guard_is_valid. Qed.
@@ -109,16 +133,18 @@ Definition S_min : fschema := {|
   s_query := Some (c "Query"); s_mutation := None; s_subscription := None;
   s_directives := []; s_desc := None |}.
 
-Theorem C16_schema_roundtrip_refuted_shadow : exists S tm sn,
-  wf_gen dv_val S = true /\ eval_module (gen_module S tm sn) = None.
-Proof. exists S_min, (c "cast"), (c "schema"). vm_compute. auto. Qed.
+(* regression witness of the FIXED finding C16-typemap-name-shadows-import: the settings now refuse the
+   name (nothing is generated); without the refusal the module would not evaluate *)
+Example C16_shadow_regression :
+  settings_ok (c "cast") (c "schema") = false /\ strategy_py S_min (c "cast") (c "schema") = None /\
+  wf_gen dv_val S_min = true /\ eval_module (gen_module S_min (c "cast") (c "schema")) = None.
+Proof. vm_compute. auto. Qed.
 
-(* the full statement (every name) is false of the faithful model: the open finding *)
-Theorem C16_schema_roundtrip_full_refuted : ~ C16_schema_roundtrip_full.
-Proof.
-  intro H. specialize (H S_min (c "cast") (c "schema") eq_refl). vm_compute in H. discriminate.
-Qed.
-Print Assumptions C16_schema_roundtrip_full_refuted.
+Example C16_settings_table :
+  settings_ok (c "type_map") (c "schema") = true /\ settings_ok (c "t") (c "t") = false /\
+  settings_ok (c "class") (c "schema") = false /\ settings_ok (c "type_map") (c "List") = false /\
+  settings_ok (c "1x") (c "schema") = false /\ settings_ok (c "match") (c "_") = true.
+Proof. vm_compute. repeat split. Qed.
 
 (* shadowing is about names USED after the type map is bound: a class name only called while the
    map is being built is harmless (the model follows Python's evaluation order) *)
@@ -151,7 +177,7 @@ Definition S_rich : fschema := {|
 line") |}.
 
 Example C16_guard_satisfiable :
-  wf_gen dv_val S_rich = true /\ mem_chars (c "type_map") BUILTIN_NAMES = false /\
+  wf_gen dv_val S_rich = true /\ settings_ok (c "type_map") (c "schema") = true /\
   List.length (user_types S_rich) = 6 /\
   eval_module (gen_module S_rich (c "type_map") (c "schema")) = Some (strip_std S_rich).
 Proof. vm_compute. repeat split. Qed.
